@@ -45,40 +45,47 @@ def judgeNode (c : Cfg) (i : Nat) (log : List Rec) (mustBeActive : Bool) : List 
             if c.kind == .LC && e.state == .JOINING && localState ri.loc != "P" then bad := "restart-joining-not-pending" :: bad
             if c.kind == .LC && e.state == .LEAVING && localState ri.loc != "A" then bad := "restart-leaving-not-active" :: bad
             -- registration time and tokens are kept in every later version
+            -- ... until the entry is lost (wipe, removal): a later re-registration is legitimately fresh
+            let mut present := true
             for k in [q:n] do
-              match entryOf arr[k]!.after c.id with
-              | some e' =>
-                if e'.regTs != e.regTs then bad := "restart-registration-changed" :: bad
-              | none => pure ()
+              if present then
+                match entryOf arr[k]!.after c.id with
+                | some e' =>
+                  if e'.regTs != e.regTs then bad := "restart-registration-changed" :: bad
+                | none => present := false
             match entryOf arr[n-1]!.after c.id with
             | some ef =>
               if e.tokens.length ≤ c.numTokens && !(e.tokens.all (ef.tokens.contains ·)) then bad := "restart-tokens-lost" :: bad
             | none => pure ()
           | none => pure ()
-  -- (b) the key is lost: the next accepted heartbeat re-inserts the remembered self, registered now
-  for p in [0:n] do
-    let r := arr[p]!
-    if r.ev == "wipe" then
-      let mut q := p + 1
+  -- (b) the ring (or the own entry) was lost while the lifecycler runs: its FIRST accepted write that finds the entry
+  -- missing — whichever handler gets there first: heartbeat, observe timer, join timer, a request — re-inserts the
+  -- remembered state and tokens with a fresh registration time. (The property names the heartbeat as the vehicle; if
+  -- another handler re-inserts first, the later heartbeat finds the entry and never refreshes anything, so the
+  -- outcome the clause promises has to hold for that write.) Keys carry the handler when it is not the heartbeat.
+  for q in [0:n] do
+    let rq := arr[q]!
+    if rq.idx == i && rq.committed && rq.ev != "init" && (entryOf rq.before c.id).isNone then
+      -- the last (re)start of this process and whether the ring was lost since
+      let mut start := 0
+      for k in [0:q] do
+        if arr[k]!.idx == i && arr[k]!.ev == "init" then start := k
+      let lost := (List.range q).any fun k => k > start && (arr[k]!.ev == "wipe" || arr[k]!.ev == "set") &&
+        (entryOf arr[k]!.before c.id).isSome && (entryOf arr[k]!.after c.id).isNone
+      -- what the lifecycler remembers when the handler starts = getters after its previous step
       let mut mem : Option (State × List Nat) := none
-      -- what the lifecycler remembers when the heartbeat starts = getters after its previous step
-      for k in [0:p] do
+      for k in [start:q] do
         if arr[k]!.idx == i && arr[k]!.loc != "dead" then mem := memOf c arr[k]!.loc
-      let mut stop := false
-      while q < n && !stop do
-        let rq := arr[q]!
-        if rq.idx == i && rq.loc != "dead" && !(rq.ev == "hb" && rq.committed) then mem := memOf c rq.loc
-        if rq.ev == "wipe" || (rq.idx == i && (rq.ev == "init" || rq.ev == "crash" || rq.committed)) then stop := true else q := q + 1
-      if q < n then
-        let rq := arr[q]!
-        if rq.idx == i && rq.ev == "hb" && rq.committed && (entryOf rq.before c.id).isNone then
-          match entryOf rq.after c.id, mem with
-          | some e, some (st, toks) =>
-            if e.state != st then bad := "reregister-state" :: bad
-            if e.tokens != toks then bad := "reregister-tokens" :: bad
-            if e.regTs != rq.now then bad := "reregister-not-fresh" :: bad
-          | none, _ => bad := "reregister-missing" :: bad
-          | _, none => pure ()
+      if lost then
+        let sfx := if rq.ev == "hb" then "" else ":" ++ rq.ev
+        match entryOf rq.after c.id, mem with
+        | some e, some (st, toks) =>
+          -- the join timer and a state change legitimately publish a new state / the first tokens
+          if e.state != st && rq.ev != "join" && rq.ev != "cs" && rq.ev != "stopd" then bad := s!"reregister-state{sfx}" :: bad
+          if !toks.isEmpty && e.tokens != toks && rq.ev != "claim" then bad := s!"reregister-tokens{sfx}" :: bad
+          if e.regTs != rq.now then bad := s!"reregister-not-fresh{sfx}" :: bad
+        | none, _ => if rq.ev == "hb" then bad := "reregister-missing" :: bad
+        | _, none => pure ()
   -- (b') after a window of rejected calls an accepted heartbeat shows the remembered state; nothing was forgotten
   for p in [0:n] do
     let r := arr[p]!
@@ -134,7 +141,7 @@ def judgeNode (c : Cfg) (i : Nat) (log : List Rec) (mustBeActive : Bool) : List 
       | some e =>
         let was := match entryOf r.before c.id with | some a => a.state == .ACTIVE | none => false
         -- (not after a hand-over: a claim replaces the token list by the claimed one, whatever its length)
-        let claimed := (arr.toList.take p).any fun x => x.idx == i && x.ev == "claim" && x.committed
+        let claimed := (arr.toList.take (p + 1)).any fun x => x.idx == i && x.ev == "claim" && x.committed
         if e.state == .ACTIVE && !was && !claimed && e.tokens.length < c.numTokens then bad := "active-without-full-tokens" :: bad
       | none => pure ()
   -- (c) the tokens file never becomes unparsable
